@@ -15,7 +15,7 @@ RULE = ("seeded single-threaded scripts (allocate/free/deallocate/realloc/get_si
 TRUSTED = ["translator/gen_slabconc.py (clang 14 JSON AST -> coq/Gen/SlabSkeleton.v; pointer-provenance Fresh/Alias/Store "
            "events are a syntactic approximation)",
            "field -> lock table field_class in coq/SlabConc/Skeleton.v",
-           "extraction: ExtrOcamlBasic only; OCaml 4.13.1; comp/slabconc/driver.ml; coq/SlabConc/Shapes.v (shape enumerator, unverified)",
+           "extraction: ExtrOcamlBasic only; OCaml 4.13.1; comp/slabconc/driver.ml (prints shapes of coq/SlabConc/Shapes.v, proved sound in ShapesSound.v)",
            "harness comp/slabconc/harness.cpp (instrumented Mutex = std::mutex + per-thread counter; g++ -fsanitize=thread and "
            "-fsanitize=address,undefined; -fno-access-control)",
            "ThreadSanitizer's happens-before detector; the C++ memory model for code inside critical sections",
@@ -56,6 +56,33 @@ def build_model():
     rc, o, e = vlib.sh(["ocamlfind", "ocamlopt", "-w", "-a", "slabconc_model.mli", "slabconc_model.ml", "slabconc_main.ml",
                         "-o", out], cwd=bdir, timeout=600)
     return rc == 0, out, o + e
+
+
+def crash_message(text):
+    import re
+    m = re.search(r"SUMMARY: ThreadSanitizer: ([^\n]*)", text)
+    if m:
+        return "ThreadSanitizer: " + re.sub(r"/[^ ]*/include/frg/", "frg/", m.group(1))[:300]
+    return vlib._crash_summary(text)
+
+
+def shrink_st(harness, lines, kind, budget=80):
+    """delta-debug a single-threaded script while the same oracle kind keeps failing"""
+    hdr, ops = lines[0], lines[1:]
+
+    def pred(cand):
+        r = vlib.run_cases(harness, [("shrink", [hdr] + cand)], shards=1, timeout=60).get("shrink")
+        if r is None:
+            return False
+        kinds = set(o.split(" ")[0] for o in r["oracle"])
+        if r.get("crash"):
+            kinds.add(classify_crash(r["crash"]))
+        if "assert" in r["lines"]:
+            kinds.add("assert")
+        return kind in kinds
+    if len(ops) < 2 or not pred(ops):
+        return lines
+    return [hdr] + vlib.ddmin(ops, pred, budget=budget)
 
 
 def classify_crash(text):
@@ -115,7 +142,7 @@ def run(c):
         cases = vlib.read_replay(c.replay)
     else:
         cases = gen.corpus()
-        nst, nmt = (500, 36) if c.tier == "quick" else (5000, 300)
+        nst, nmt = (500, 36) if c.tier == "quick" else (12000, 800)
         for i in range(nst):
             cases.append(("st%d" % i, gen.gen_st(c.rng)))
         for i in range(nmt):
@@ -123,23 +150,31 @@ def run(c):
     st = [(i, l) for i, l in cases if l and l[0].startswith("st")]
     mt = [(i, l) for i, l in cases if l and l[0].startswith("mt")]
     r_st = vlib.run_cases(hasan, st, timeout=300) if st else {}
-    r_mt = vlib.run_cases(htsan, mt, shards=min(4, max(1, len(mt))), timeout=600) if mt else {}
+    r_mt = vlib.run_cases(htsan, mt, shards=min(4, max(1, len(mt))), timeout=1500) if mt else {}
     # a share of the concurrent cases also under ASan/UBSan (memory errors that TSan does not report)
     mt_asan = mt[: max(1, len(mt) // 3)] if mt else []
-    r_mta = vlib.run_cases(hasan, mt_asan, shards=min(4, max(1, len(mt_asan))), timeout=600) if mt_asan else {}
+    r_mta = vlib.run_cases(hasan, mt_asan, shards=min(4, max(1, len(mt_asan))), timeout=1500) if mt_asan else {}
+
+    shrunk = {}
+
+    def report(kind, msg, cid, lines, leg):
+        if lines and lines[0].startswith("st") and not c.replay:
+            if kind not in shrunk and len(shrunk) < 6:        # shrink the first failing script of each kind
+                shrunk[kind] = shrink_st(hasan, lines, kind)
+                lines = shrunk[kind]
+        c.oracle(kind, "[%s] %s" % (leg, msg), cid, lines)
 
     def collect(cid, lines, r, leg):
         if r is None:
             c.mismatch(cid, lines, "harness (%s) produced no output" % leg)
             return
         if r.get("crash"):
-            k = classify_crash(r["crash"])
-            c.oracle(k, "[%s] %s" % (leg, vlib._crash_summary(r["crash"])), cid, lines)
+            report(classify_crash(r["crash"]), crash_message(r["crash"]), cid, lines, leg)
         for o in r["oracle"]:
             k, _, m = o.partition(" ")
-            c.oracle(k, "[%s] %s" % (leg, m), cid, lines)
+            report(k, m, cid, lines, leg)
         if "assert" in r["lines"]:
-            c.oracle("assert", "[%s] FRG_ASSERT fired during a valid API call" % leg, cid, lines)
+            report("assert", "FRG_ASSERT fired during a valid API call", cid, lines, leg)
 
     for cid, lines in st:
         r = r_st.get(cid)
@@ -175,4 +210,7 @@ def run(c):
                 if w[0] == "mt" and w[-1] == "done":
                     c.count("slabconc_mt_scenario_" + w[1])
                     c.nontrivial.add((w[1], hdr[2], hdr[1]))
+    c.extra["slabconc_skeleton_shapes_observed"] = {
+        f: "%d of %d" % (len(set(k[1] for k in c.nontrivial if len(k) == 2 and k[0] == f)), len(shapes.get(f, ())))
+        for f in ("allocate", "realloc", "free", "deallocate", "get_size")}
     return True
